@@ -7,6 +7,7 @@ Profiles steer the source kinds so that the analysis kind is predictable:
   's'    : causal step / s-domain sources, no initial conditions (kind 's'/'laplace')
   'ivp'  : some L/C carry initial conditions
   'mixed': dc + step sources together (two sub-analyses)
+  'res'  : resistors only with dc / step sources (Lcapy analyses these in the time domain, kind 'time')
   'ac'   : ac sources `ac V phase omega` with quarter-turn phases (so every phasor is a
            Gaussian rational), one or two angular frequencies, sometimes a dc source too
 Structure: a random spanning tree over nodes 0..n built from two-terminal
@@ -56,7 +57,7 @@ def gen_netlist(rng, profile='s', size=None, extras=True, allow=None):
         return (a, b) if rng.random() < 0.5 else (b, a)
 
     def passive(a, b):
-        k = rng.choice(['R', 'R', 'R', 'C', 'L'] if profile != 'dc' else ['R', 'R', 'R', 'R', 'C', 'L'])
+        k = rng.choice(['R'] if profile == 'res' else (['R', 'R', 'R', 'C', 'L'] if profile != 'dc' else ['R', 'R', 'R', 'R', 'C', 'L']))
         a, b = orient(a, b)
         if k == 'R':
             lines.append('%s %s %s %s' % (name('R'), a, b, fs(val(rng))))
@@ -80,7 +81,9 @@ def gen_netlist(rng, profile='s', size=None, extras=True, allow=None):
         nm = name('V')
         v = fs(val(rng, -6, 6) or 1)
         kind = {'dc': 'dc', 's': rng.choice(['step', 'step', 'sexp']), 'ivp': rng.choice(['step', 'dc0']),
-                'mixed': rng.choice(['dc', 'step']), 'ac': 'ac'}[profile]
+                'mixed': rng.choice(['dc', 'step']), 'ac': 'ac', 'res': None}[profile]
+        if profile == 'res':       # (drawn only for this profile: the random streams of the others stay as they were)
+            kind = rng.choice(['dc', 'step', 'dc0'])
         if kind == 'ac':
             lines.append('%s %s %s %s' % (nm, a, b, acspec(v)))
             tags.add('ac')
@@ -98,7 +101,9 @@ def gen_netlist(rng, profile='s', size=None, extras=True, allow=None):
         a, b = orient(a, b)
         nm = name('I')
         v = fs(val(rng, -6, 6) or 1)
-        kind = {'dc': 'dc', 's': 'step', 'ivp': 'step', 'mixed': rng.choice(['dc', 'step']), 'ac': 'ac'}[profile]
+        kind = {'dc': 'dc', 's': 'step', 'ivp': 'step', 'mixed': rng.choice(['dc', 'step']), 'ac': 'ac', 'res': None}[profile]
+        if profile == 'res':
+            kind = rng.choice(['dc', 'step'])
         if kind == 'ac':
             lines.append('%s %s %s %s' % (nm, a, b, acspec(v)))
             tags.add('ac')
